@@ -8,6 +8,7 @@ import (
 	"go/token"
 	"go/types"
 	"os"
+	"runtime/debug"
 	"strings"
 
 	"golang.org/x/tools/go/packages"
@@ -139,6 +140,12 @@ func runInit(i *interpreter, p *ssa.Package) (errs string) {
 				errs = "panic: " + toString(x.v)
 			default:
 				errs = fmt.Sprint(x)
+				if n := len(i.run.rtPanics); n > 0 {
+					errs += " [" + i.run.rtPanics[0] + "]"
+				}
+				if os.Getenv("VP_DEBUG") == "3" {
+					errs += "\n" + string(debug.Stack())
+				}
 			}
 		}
 	}()
